@@ -44,6 +44,13 @@ def gen(tier, rng):
             p = rng.randrange(nd)
             for q in pts:
                 q[p] = pts[0][p]
+        if rng.random() < 0.12:         # every point in one and the same pixel: each cube's own box is one element wide on EVERY axis
+            for q in pts[1:]:
+                for p in range(nd):
+                    v = Fr(*pts[0][p])
+                    c = Fr(int(np.floor(float(v) + 0.5)))
+                    w = c + rng.choice([Fr(0), Fr(1, 4), Fr(-3, 8), v - c])
+                    q[p] = [w.numerator, w.denominator]
         form = rng.choice(["values", "values", "objects"])
         tabs = []
         if rng.random() < 0.3:
@@ -175,9 +182,25 @@ def run(case):
             lo, hi, _ = own[a].indices(shape[a])
             starts[a] = lo if starts[a] is None else min(starts[a], lo)
             stops[a] = hi if stops[a] is None else max(stops[a], hi)
-    if own_exc is not None:
-        # the points are not valid for cube crop on some cube: outside the quantifier
+    # do all points lie on every cube's array (through the WCS used for that cube)?
+    all_on = True
+    for k in range(len(cubes)):
+        sh_k = (case["shifts"] if mode != "foreign" or True else case["own_shifts"])[k]
+        for p in pix_pts:
+            for px in range(nd):
+                pos = float(p[px]) - sh_k[px]
+                lo, hi = (0.0, shape[nd - 1 - px] - 1.0) if tabs else (-0.5, shape[nd - 1 - px] - 0.5001)   # a table ends at its last entry
+                if not lo <= pos <= hi:
+                    all_on = False
+    if own_exc is not None and not all_on:
+        # some point lies off some cube (a lookup table has no value there): outside the quantifier
         return {"out": {"t": "err", "e": exc or own_exc}, "oracle": {"ok": True, "why": "", "finding": None}, "world": None, "skip": True}
+    if own_exc is not None:
+        # every generated point set is valid for a cube crop that keeps its dimensions (the points lie on a probe WCS
+        # that inverts exactly; one-element boxes are allowed with keepdims=True): a refusal is a failure, not a skip
+        return {"out": {"t": "err", "e": exc or own_exc},
+                "oracle": {"ok": False, "why": f"a cube's own crop (keepdims=True) raised {own_exc} on valid points, so the sequence crop cannot accept them", "finding": None},
+                "world": None, "skip": True}
     if exc is not None:
         why.append(f"sequence crop raised {exc} on points valid for cube crop")
     else:
